@@ -32,3 +32,6 @@ SPEC = {'id': 'C09',
          ' Also: four independent streams written concurrently through writers that stall at random (each reads back exactly its own chunks); prefixes whose third byte announces a continuation are rejected as too long at that point, on a truncated and on an open stream.',
  'trusted': ['Go stdlib modelled: io.ReadFull, io.CopyN(ioutil.Discard), io.Pipe zero-length writes'],
  'assumptions': ["ReadData's reader obeys the io.Reader contract and eventually stops returning (0, nil)"]}
+
+SPEC['rule'] += (' Added after the seeded-change rounds: ' +
+    'Concurrent streams over one stalling writer; paddings: 64 KiB random padding buffers, 3 MiB of consecutive paddings decoded in a child process with a 32 MiB stack limit (bounded memory, no recursion); too-long prefixes decided at the third prefix byte (oracle, independent of the model); every case evaluated twice in different orders (vh.Independent).')
